@@ -17,7 +17,7 @@ open VL VL.Score VL.C10
 
 /-! ### `mapM` in `Except` over permuted / related lists -/
 
-theorem mapM_cons_ok {α β : Type} (f : α → Except Err β) (x : α) (xs : List α) :
+theorem score_mapM_cons_ok {α β : Type} (f : α → Except Err β) (x : α) (xs : List α) :
     (x :: xs).mapM f = match f x with
       | .error e => .error e
       | .ok y => match xs.mapM f with
@@ -32,13 +32,13 @@ theorem mapM_cons_ok {α β : Type} (f : α → Except Err β) (x : α) (xs : Li
     | ok ys => rfl
 
 /-- when every failure of `f` is the same exception, `mapM f` fails with it iff some element fails -/
-theorem mapM_uniform {α β : Type} (f : α → Except Err β) (e₀ : Err) (l : List α)
+theorem score_mapM_uniform {α β : Type} (f : α → Except Err β) (e₀ : Err) (l : List α)
     (hf : ∀ x ∈ l, ∀ e, f x = .error e → e = e₀) :
     l.mapM f = if l.all (fun x => (f x).toBool) then .ok (l.filterMap (fun x => (f x).toOption)) else .error e₀ := by
   induction l with
   | nil => rfl
   | cons x xs ih =>
-    rw [mapM_cons_ok, ih (fun y hy => hf y (List.mem_cons_of_mem _ hy))]
+    rw [score_mapM_cons_ok, ih (fun y hy => hf y (List.mem_cons_of_mem _ hy))]
     cases hx : f x with
     | error e =>
       have := hf x List.mem_cons_self e hx
@@ -54,22 +54,22 @@ theorem mapM_uniform {α β : Type} (f : α → Except Err β) (e₀ : Err) (l :
       · rw [if_pos ha, if_pos ha]
       · rw [if_neg ha, if_neg ha]
 
-theorem mapM_perm {α β : Type} (f : α → Except Err β) (e₀ : Err) {l₁ l₂ : List α} (h : l₁.Perm l₂)
+theorem score_mapM_perm {α β : Type} (f : α → Except Err β) (e₀ : Err) {l₁ l₂ : List α} (h : l₁.Perm l₂)
     (hf : ∀ x ∈ l₁, ∀ e, f x = .error e → e = e₀) :
     ExceptEquiv List.Perm (l₁.mapM f) (l₂.mapM f) := by
-  rw [mapM_uniform f e₀ l₁ hf, mapM_uniform f e₀ l₂ (fun x hx => hf x (h.mem_iff.mpr hx)), h.all_eq]
+  rw [score_mapM_uniform f e₀ l₁ hf, score_mapM_uniform f e₀ l₂ (fun x hx => hf x (h.mem_iff.mpr hx)), h.all_eq]
   split
   · exact h.filterMap _
   · exact rfl
 
-theorem mapM_forall₂ {α β : Type} {R : α → α → Prop} {S : β → β → Prop} (f g : α → Except Err β)
+theorem score_mapM_forall₂ {α β : Type} {R : α → α → Prop} {S : β → β → Prop} (f g : α → Except Err β)
     (hfg : ∀ a b, R a b → ExceptEquiv S (f a) (g b)) {l₁ l₂ : List α} (h : List.Forall₂ R l₁ l₂) :
     ExceptEquiv (List.Forall₂ S) (l₁.mapM f) (l₂.mapM g) := by
   induction h with
   | nil => exact List.Forall₂.nil
   | cons hab _ ih =>
     rename_i a b l₁ l₂ _
-    rw [mapM_cons_ok, mapM_cons_ok]
+    rw [score_mapM_cons_ok, score_mapM_cons_ok]
     have h1 := hfg a b hab
     cases hfa : f a with
     | error e =>
@@ -98,35 +98,35 @@ section Dict
 variable {κ ν : Type} [DecidableEq κ]
 
 /-- `d.get(k)` of an insertion-ordered dict -/
-def dget (d : List (κ × ν)) (k : κ) : Option ν := (d.find? (fun p => p.1 = k)).map (·.2)
+def score_dget (d : List (κ × ν)) (k : κ) : Option ν := (d.find? (fun p => p.1 = k)).map (·.2)
 
-theorem dget_nil (k : κ) : dget ([] : List (κ × ν)) k = none := rfl
+theorem score_dget_nil (k : κ) : score_dget ([] : List (κ × ν)) k = none := rfl
 
-theorem dget_cons (p : κ × ν) (d : List (κ × ν)) (k : κ) : dget (p :: d) k = if p.1 = k then some p.2 else dget d k := by
-  unfold dget
+theorem score_dget_cons (p : κ × ν) (d : List (κ × ν)) (k : κ) : score_dget (p :: d) k = if p.1 = k then some p.2 else score_dget d k := by
+  unfold score_dget
   rw [List.find?_cons]
   by_cases h : p.1 = k <;> simp [h]
 
-theorem dget_isSome {d : List (κ × ν)} {k : κ} : (dget d k).isSome = true ↔ k ∈ d.map (·.1) := by
+theorem score_dget_isSome {d : List (κ × ν)} {k : κ} : (score_dget d k).isSome = true ↔ k ∈ d.map (·.1) := by
   induction d with
-  | nil => simp [dget_nil]
+  | nil => simp [score_dget_nil]
   | cons p ps ih =>
-    rw [dget_cons]
+    rw [score_dget_cons]
     by_cases h : p.1 = k
     · simp [h]
     · have h' : ¬ k = p.1 := fun e => h e.symm
       simp [h, h', ih]
 
-theorem dget_eq_none {d : List (κ × ν)} {k : κ} : dget d k = none ↔ k ∉ d.map (·.1) := by
-  rw [← dget_isSome]; cases dget d k <;> simp
+theorem score_dget_eq_none {d : List (κ × ν)} {k : κ} : score_dget d k = none ↔ k ∉ d.map (·.1) := by
+  rw [← score_dget_isSome]; cases score_dget d k <;> simp
 
-theorem dget_eq_some_iff {d : List (κ × ν)} (hnd : (d.map (·.1)).Nodup) {k : κ} {v : ν} :
-    dget d k = some v ↔ (k, v) ∈ d := by
+theorem score_dget_eq_some_iff {d : List (κ × ν)} (hnd : (d.map (·.1)).Nodup) {k : κ} {v : ν} :
+    score_dget d k = some v ↔ (k, v) ∈ d := by
   induction d with
-  | nil => simp [dget_nil]
+  | nil => simp [score_dget_nil]
   | cons p ps ih =>
     have hp : p.1 ∉ ps.map (·.1) ∧ (ps.map (·.1)).Nodup := List.nodup_cons.mp hnd
-    rw [dget_cons, List.mem_cons]
+    rw [score_dget_cons, List.mem_cons]
     by_cases h : p.1 = k
     · rw [if_pos h]
       constructor
@@ -141,34 +141,34 @@ theorem dget_eq_some_iff {d : List (κ × ν)} (hnd : (d.map (·.1)).Nodup) {k :
         · exfalso; apply h; rw [← e]
         · exact e
 
-theorem dget_perm {d₁ d₂ : List (κ × ν)} (h : d₁.Perm d₂) (hnd : (d₁.map (·.1)).Nodup) (k : κ) :
-    dget d₁ k = dget d₂ k := by
-  unfold dget
+theorem score_dget_perm {d₁ d₂ : List (κ × ν)} (h : d₁.Perm d₂) (hnd : (d₁.map (·.1)).Nodup) (k : κ) :
+    score_dget d₁ k = score_dget d₂ k := by
+  unfold score_dget
   rw [find?_perm_of_nodup_keys (fun p : κ × ν => p.1) h hnd k]
 
 omit [DecidableEq κ] in
-theorem nodup_of_nodup_keys {d : List (κ × ν)} (hnd : (d.map (·.1)).Nodup) : d.Nodup := List.Nodup.of_map _ hnd
+theorem score_nodup_of_nodup_keys {d : List (κ × ν)} (hnd : (d.map (·.1)).Nodup) : d.Nodup := List.Nodup.of_map _ hnd
 
 /-- two dicts with distinct keys that are the same map hold the same items -/
-theorem perm_of_dget_eq {d₁ d₂ : List (κ × ν)} (h₁ : (d₁.map (·.1)).Nodup) (h₂ : (d₂.map (·.1)).Nodup)
-    (h : ∀ k, dget d₁ k = dget d₂ k) : d₁.Perm d₂ := by
-  apply (List.perm_ext_iff_of_nodup (nodup_of_nodup_keys h₁) (nodup_of_nodup_keys h₂)).mpr
+theorem perm_of_score_dget_eq {d₁ d₂ : List (κ × ν)} (h₁ : (d₁.map (·.1)).Nodup) (h₂ : (d₂.map (·.1)).Nodup)
+    (h : ∀ k, score_dget d₁ k = score_dget d₂ k) : d₁.Perm d₂ := by
+  apply (List.perm_ext_iff_of_nodup (score_nodup_of_nodup_keys h₁) (score_nodup_of_nodup_keys h₂)).mpr
   rintro ⟨k, v⟩
-  rw [← dget_eq_some_iff h₁, ← dget_eq_some_iff h₂, h k]
+  rw [← score_dget_eq_some_iff h₁, ← score_dget_eq_some_iff h₂, h k]
 
 end Dict
 
 /-! ### count dicts (`Dict[score, count]`) up to insertion order -/
 
-theorem getCount_eq_dget (d : CScores) (s : Rat) : getCount d s = (dget d s).getD 0 := by
-  unfold getCount dget
+theorem getCount_eq_score_dget (d : CScores) (s : Rat) : getCount d s = (score_dget d s).getD 0 := by
+  unfold getCount score_dget
   cases d.find? (fun p => p.1 = s) <;> rfl
 
-theorem dget_setCount (d : CScores) (s : Rat) (n : Int) (k : Rat) :
-    dget (setCount d s n) k = if k = s then some n else dget d k := by
+theorem score_dget_setCount (d : CScores) (s : Rat) (n : Int) (k : Rat) :
+    score_dget (setCount d s n) k = if k = s then some n else score_dget d k := by
   induction d with
   | nil =>
-    simp only [setCount, dget_cons, dget_nil]
+    simp only [setCount, score_dget_cons, score_dget_nil]
     by_cases h : k = s
     · rw [if_pos h.symm, if_pos h]
     · rw [if_neg (fun e => h e.symm), if_neg h]
@@ -176,12 +176,12 @@ theorem dget_setCount (d : CScores) (s : Rat) (n : Int) (k : Rat) :
     obtain ⟨q, v⟩ := p
     unfold setCount
     by_cases hq : q = s
-    · rw [if_pos hq, dget_cons, dget_cons]
+    · rw [if_pos hq, score_dget_cons, score_dget_cons]
       simp only
       by_cases h : k = s
       · rw [if_pos (hq.trans h.symm), if_pos h]
       · rw [if_neg h, if_neg (fun e => h (e.symm.trans hq)), if_neg (fun e => h (e.symm.trans hq))]
-    · rw [if_neg hq, dget_cons, dget_cons, ih]
+    · rw [if_neg hq, score_dget_cons, score_dget_cons, ih]
       simp only
       by_cases h : q = k
       · rw [if_pos h, if_pos h, if_neg (fun e => hq (h.trans e))]
@@ -194,16 +194,16 @@ theorem CEquiv.refl {a : CScores} (h : (ckeys a).Nodup) : CEquiv a a := ⟨List.
 
 theorem CEquiv.nodup_right {a b : CScores} (h : CEquiv a b) : (ckeys b).Nodup := (h.1.map _).nodup_iff.mp h.2
 
-theorem CEquiv.dget_eq {a b : CScores} (h : CEquiv a b) (s : Rat) : dget a s = dget b s := dget_perm h.1 h.2 s
+theorem CEquiv.score_dget_eq {a b : CScores} (h : CEquiv a b) (s : Rat) : score_dget a s = score_dget b s := score_dget_perm h.1 h.2 s
 
 theorem CEquiv.getCount_eq {a b : CScores} (h : CEquiv a b) (s : Rat) : getCount a s = getCount b s := by
-  rw [getCount_eq_dget, getCount_eq_dget, h.dget_eq]
+  rw [getCount_eq_score_dget, getCount_eq_score_dget, h.score_dget_eq]
 
 theorem CEquiv.setCount {a b : CScores} (h : CEquiv a b) (s : Rat) (n : Int) : CEquiv (setCount a s n) (setCount b s n) := by
-  refine ⟨perm_of_dget_eq (ckeys_setCount_nodup h.2 s n) (ckeys_setCount_nodup h.nodup_right s n) ?_,
+  refine ⟨perm_of_score_dget_eq (ckeys_setCount_nodup h.2 s n) (ckeys_setCount_nodup h.nodup_right s n) ?_,
     ckeys_setCount_nodup h.2 s n⟩
   intro k
-  rw [dget_setCount, dget_setCount, h.dget_eq]
+  rw [score_dget_setCount, score_dget_setCount, h.score_dget_eq]
 
 theorem CEquiv.delKey {a b : CScores} (h : CEquiv a b) (s : Rat) : CEquiv (delKey a s) (delKey b s) :=
   ⟨h.1.filter _, ckeys_delKey_nodup h.2 s⟩
@@ -214,7 +214,7 @@ theorem totalCount_perm {a b : CScores} (h : a.Perm b) : totalCount a = totalCou
 theorem expand_perm {a b : CScores} (h : a.Perm b) : (expand a).Perm (expand b) := by
   unfold expand; exact h.flatMap_right _
 
-theorem foldl_min_spec (xs : List Rat) : ∀ m0 : Rat,
+theorem score_foldl_min_spec (xs : List Rat) : ∀ m0 : Rat,
     (xs.foldl (fun m y => if y < m then y else m) m0 = m0 ∨ xs.foldl (fun m y => if y < m then y else m) m0 ∈ xs) ∧
     xs.foldl (fun m y => if y < m then y else m) m0 ≤ m0 ∧
     ∀ y ∈ xs, xs.foldl (fun m y => if y < m then y else m) m0 ≤ y := by
@@ -246,7 +246,7 @@ theorem listMin_spec {l : List Rat} {m : Rat} (h : listMin l = .ok m) : m ∈ l 
   | cons x xs =>
     simp only [listMin] at h
     injection h with h
-    obtain ⟨h1, h2, h3⟩ := foldl_min_spec xs x
+    obtain ⟨h1, h2, h3⟩ := score_foldl_min_spec xs x
     rw [h] at h1 h2 h3
     refine ⟨?_, ?_⟩
     · rcases h1 with h1 | h1
@@ -406,20 +406,20 @@ theorem correctOne_error {cfg : Cfg} {a : CScores} {nVotes : Int} {e : Err} (h :
 
 /-! ### the nested dict `scores` (`Dict[candidate, Dict[score, count]]`) as a map -/
 
-def tkeys (t : ScoreTable) : List Cand := t.map (·.1)
+def scoreTKeys (t : ScoreTable) : List Cand := t.map (·.1)
 
 /-- distinct candidates, and distinct grades in every count dict -/
-def TWF (t : ScoreTable) : Prop := (tkeys t).Nodup ∧ ∀ p ∈ t, (ckeys p.2).Nodup
+def ScoreTWF (t : ScoreTable) : Prop := (scoreTKeys t).Nodup ∧ ∀ p ∈ t, (ckeys p.2).Nodup
 
-theorem tableGet_eq_dget (t : ScoreTable) (c : Cand) : tableGet t c = dget t c := by
-  unfold tableGet dget
+theorem tableGet_eq_score_dget (t : ScoreTable) (c : Cand) : tableGet t c = score_dget t c := by
+  unfold tableGet score_dget
   cases t.find? (fun p => p.1 = c) <;> rfl
 
-theorem dget_addScore (t : ScoreTable) (c : Cand) (s : Rat) (n : Int) (c' : Cand) :
-    dget (addScore t c s n) c' = if c' = c then some (addCount ((dget t c).getD []) s n) else dget t c' := by
+theorem score_dget_addScore (t : ScoreTable) (c : Cand) (s : Rat) (n : Int) (c' : Cand) :
+    score_dget (addScore t c s n) c' = if c' = c then some (addCount ((score_dget t c).getD []) s n) else score_dget t c' := by
   induction t with
   | nil =>
-    simp only [addScore, dget_cons, dget_nil]
+    simp only [addScore, score_dget_cons, score_dget_nil]
     by_cases h : c' = c
     · rw [if_pos h.symm, if_pos h]; rfl
     · rw [if_neg (fun e => h e.symm), if_neg h]
@@ -427,30 +427,30 @@ theorem dget_addScore (t : ScoreTable) (c : Cand) (s : Rat) (n : Int) (c' : Cand
     obtain ⟨k, cs⟩ := p
     unfold addScore
     by_cases hk : k = c
-    · rw [if_pos hk, dget_cons, dget_cons, dget_cons]
+    · rw [if_pos hk, score_dget_cons, score_dget_cons, score_dget_cons]
       simp only
       by_cases h : c' = c
       · rw [if_pos (hk.trans h.symm), if_pos h, if_pos hk]; rfl
       · rw [if_neg (fun e => h (e.symm.trans hk)), if_neg h, if_neg (fun e => h (e.symm.trans hk))]
-    · rw [if_neg hk, dget_cons, dget_cons, dget_cons, ih]
+    · rw [if_neg hk, score_dget_cons, score_dget_cons, score_dget_cons, ih]
       simp only
       rw [if_neg hk]
       by_cases h : k = c'
       · rw [if_pos h, if_pos h, if_neg (fun e => hk (h.trans e))]
       · rw [if_neg h, if_neg h]
 
-theorem mem_tkeys_addScore (t : ScoreTable) (c : Cand) (s : Rat) (n : Int) (c' : Cand) :
-    c' ∈ tkeys (addScore t c s n) ↔ c' ∈ tkeys t ∨ c' = c := by
-  unfold tkeys
-  rw [← dget_isSome, ← dget_isSome, dget_addScore]
+theorem mem_scoreTKeys_addScore (t : ScoreTable) (c : Cand) (s : Rat) (n : Int) (c' : Cand) :
+    c' ∈ scoreTKeys (addScore t c s n) ↔ c' ∈ scoreTKeys t ∨ c' = c := by
+  unfold scoreTKeys
+  rw [← score_dget_isSome, ← score_dget_isSome, score_dget_addScore]
   by_cases h : c' = c
   · simp [h]
   · simp [h]
 
-theorem TWF_addScore {t : ScoreTable} (h : TWF t) (c : Cand) (s : Rat) (n : Int) : TWF (addScore t c s n) := by
+theorem ScoreTWF_addScore {t : ScoreTable} (h : ScoreTWF t) (c : Cand) (s : Rat) (n : Int) : ScoreTWF (addScore t c s n) := by
   induction t with
   | nil =>
-    refine ⟨by simp [addScore, tkeys], ?_⟩
+    refine ⟨by simp [addScore, scoreTKeys], ?_⟩
     intro p hp
     simp only [addScore, List.mem_singleton] at hp
     subst hp
@@ -458,8 +458,8 @@ theorem TWF_addScore {t : ScoreTable} (h : TWF t) (c : Cand) (s : Rat) (n : Int)
   | cons p ps ih =>
     obtain ⟨k, cs⟩ := p
     obtain ⟨h1, h2⟩ := h
-    have h1' : k ∉ tkeys ps ∧ (tkeys ps).Nodup := List.nodup_cons.mp h1
-    have hps : TWF ps := ⟨h1'.2, fun q hq => h2 q (List.mem_cons_of_mem _ hq)⟩
+    have h1' : k ∉ scoreTKeys ps ∧ (scoreTKeys ps).Nodup := List.nodup_cons.mp h1
+    have hps : ScoreTWF ps := ⟨h1'.2, fun q hq => h2 q (List.mem_cons_of_mem _ hq)⟩
     unfold addScore
     by_cases hk : k = c
     · rw [if_pos hk]
@@ -471,9 +471,9 @@ theorem TWF_addScore {t : ScoreTable} (h : TWF t) (c : Cand) (s : Rat) (n : Int)
     · rw [if_neg hk]
       have ih' := ih hps
       refine ⟨?_, ?_⟩
-      · show (k :: tkeys (addScore ps c s n)).Nodup
+      · show (k :: scoreTKeys (addScore ps c s n)).Nodup
         refine List.nodup_cons.mpr ⟨?_, ih'.1⟩
-        rw [mem_tkeys_addScore]
+        rw [mem_scoreTKeys_addScore]
         rintro (h | h)
         · exact h1'.1 h
         · exact hk h
@@ -483,53 +483,53 @@ theorem TWF_addScore {t : ScoreTable} (h : TWF t) (c : Cand) (s : Rat) (n : Int)
         · exact ih'.2 q hq'
 
 /-- the nested dict read as a map candidate -> (grade -> count) -/
-abbrev Sem := Cand → Option (Rat → Option Int)
+abbrev ScoreSem := Cand → Option (Rat → Option Int)
 
-def sem (t : ScoreTable) : Sem := fun c => (dget t c).map (fun cs => dget cs)
+def scoreSem (t : ScoreTable) : ScoreSem := fun c => (score_dget t c).map (fun cs => score_dget cs)
 
-def semRow (m : Sem) (c : Cand) : Rat → Option Int := (m c).getD (fun _ => none)
+def scoreSemRow (m : ScoreSem) (c : Cand) : Rat → Option Int := (m c).getD (fun _ => none)
 
 /-- `scores[cand][score] += n` on the map -/
-def upd (m : Sem) (x : Cand × Rat × Int) : Sem :=
-  Function.update m x.1 (some (Function.update (semRow m x.1) x.2.1 (some (((semRow m x.1) x.2.1).getD 0 + x.2.2))))
+def semUpd (m : ScoreSem) (x : Cand × Rat × Int) : ScoreSem :=
+  Function.update m x.1 (some (Function.update (scoreSemRow m x.1) x.2.1 (some (((scoreSemRow m x.1) x.2.1).getD 0 + x.2.2))))
 
-theorem semRow_sem (t : ScoreTable) (c : Cand) : semRow (sem t) c = dget ((dget t c).getD []) := by
-  unfold semRow sem
-  cases dget t c with
+theorem scoreSemRow_sem (t : ScoreTable) (c : Cand) : scoreSemRow (scoreSem t) c = score_dget ((score_dget t c).getD []) := by
+  unfold scoreSemRow scoreSem
+  cases score_dget t c with
   | none => funext k; rfl
   | some cs => rfl
 
-theorem sem_addScore (t : ScoreTable) (x : Cand × Rat × Int) : sem (addScore t x.1 x.2.1 x.2.2) = upd (sem t) x := by
+theorem scoreSem_addScore (t : ScoreTable) (x : Cand × Rat × Int) : scoreSem (addScore t x.1 x.2.1 x.2.2) = semUpd (scoreSem t) x := by
   obtain ⟨c, s, n⟩ := x
   funext c'
-  unfold upd
+  unfold semUpd
   simp only
   by_cases h : c' = c
   · subst h
     rw [Function.update_self]
-    unfold sem
-    rw [dget_addScore, if_pos rfl]
+    unfold scoreSem
+    rw [score_dget_addScore, if_pos rfl]
     simp only [Option.map_some]
     congr 1
     funext k
     unfold addCount
-    rw [dget_setCount, Function.update_apply]
-    have := semRow_sem t c'
-    unfold sem at this
-    rw [this, getCount_eq_dget]
+    rw [score_dget_setCount, Function.update_apply]
+    have := scoreSemRow_sem t c'
+    unfold scoreSem at this
+    rw [this, getCount_eq_score_dget]
   · rw [Function.update_of_ne h]
-    unfold sem
-    rw [dget_addScore, if_neg h]
+    unfold scoreSem
+    rw [score_dget_addScore, if_neg h]
 
 /-- the update is commutative: the order of the `+=` does not matter for the map -/
-theorem upd_comm (m : Sem) (x y : Cand × Rat × Int) : upd (upd m x) y = upd (upd m y) x := by
+theorem semUpd_comm (m : ScoreSem) (x y : Cand × Rat × Int) : semUpd (semUpd m x) y = semUpd (semUpd m y) x := by
   obtain ⟨c₁, s₁, n₁⟩ := x
   obtain ⟨c₂, s₂, n₂⟩ := y
-  unfold upd
+  unfold semUpd
   simp only
   by_cases hc : c₁ = c₂
   · subst hc
-    simp only [semRow, Function.update_self, Function.update_idem, Option.getD_some]
+    simp only [scoreSemRow, Function.update_self, Function.update_idem, Option.getD_some]
     congr 2
     by_cases hs : s₁ = s₂
     · subst hs
@@ -539,51 +539,51 @@ theorem upd_comm (m : Sem) (x y : Cand × Rat × Int) : upd (upd m x) y = upd (u
     · have hs' : s₂ ≠ s₁ := fun e => hs e.symm
       rw [Function.update_of_ne hs', Function.update_of_ne hs, Function.update_comm hs]
   · have hc' : c₂ ≠ c₁ := fun e => hc e.symm
-    have e1 : semRow (Function.update m c₁ (some (Function.update (semRow m c₁) s₁ (some ((semRow m c₁ s₁).getD 0 + n₁))))) c₂
-        = semRow m c₂ := by
-      unfold semRow; rw [Function.update_of_ne hc']
-    have e2 : semRow (Function.update m c₂ (some (Function.update (semRow m c₂) s₂ (some ((semRow m c₂ s₂).getD 0 + n₂))))) c₁
-        = semRow m c₁ := by
-      unfold semRow; rw [Function.update_of_ne hc]
+    have e1 : scoreSemRow (Function.update m c₁ (some (Function.update (scoreSemRow m c₁) s₁ (some ((scoreSemRow m c₁ s₁).getD 0 + n₁))))) c₂
+        = scoreSemRow m c₂ := by
+      unfold scoreSemRow; rw [Function.update_of_ne hc']
+    have e2 : scoreSemRow (Function.update m c₂ (some (Function.update (scoreSemRow m c₂) s₂ (some ((scoreSemRow m c₂ s₂).getD 0 + n₂))))) c₁
+        = scoreSemRow m c₁ := by
+      unfold scoreSemRow; rw [Function.update_of_ne hc]
     rw [e1, e2, Function.update_comm hc]
 
 /-- the `(candidate, grade, count)` increments of the double loop convert.py L188-191, in order -/
-def flat (votes : SProfile) : List (Cand × Rat × Int) :=
+def scoreFlat (votes : SProfile) : List (Cand × Rat × Int) :=
   votes.flatMap (fun bn => bn.1.map (fun cs => (cs.1, cs.2, bn.2)))
 
 theorem rawScores_eq_fold (votes : SProfile) :
-    rawScores votes = (flat votes).foldl (fun t x => addScore t x.1 x.2.1 x.2.2) [] := by
-  unfold rawScores flat
+    rawScores votes = (scoreFlat votes).foldl (fun t x => addScore t x.1 x.2.1 x.2.2) [] := by
+  unfold rawScores scoreFlat
   rw [List.foldl_flatMap]
   congr 1
   funext t bn
   rw [List.foldl_map]
 
-theorem sem_fold (L : List (Cand × Rat × Int)) : ∀ t : ScoreTable,
-    sem (L.foldl (fun t x => addScore t x.1 x.2.1 x.2.2) t) = L.foldl upd (sem t) := by
+theorem scoreSem_fold (L : List (Cand × Rat × Int)) : ∀ t : ScoreTable,
+    scoreSem (L.foldl (fun t x => addScore t x.1 x.2.1 x.2.2) t) = L.foldl semUpd (scoreSem t) := by
   induction L with
   | nil => intro t; rfl
-  | cons x xs ih => intro t; rw [List.foldl_cons, List.foldl_cons, ih, sem_addScore]
+  | cons x xs ih => intro t; rw [List.foldl_cons, List.foldl_cons, ih, scoreSem_addScore]
 
-theorem TWF_fold (L : List (Cand × Rat × Int)) : ∀ t : ScoreTable, TWF t →
-    TWF (L.foldl (fun t x => addScore t x.1 x.2.1 x.2.2) t) := by
+theorem ScoreTWF_fold (L : List (Cand × Rat × Int)) : ∀ t : ScoreTable, ScoreTWF t →
+    ScoreTWF (L.foldl (fun t x => addScore t x.1 x.2.1 x.2.2) t) := by
   induction L with
   | nil => intro t h; exact h
-  | cons x xs ih => intro t h; rw [List.foldl_cons]; exact ih _ (TWF_addScore h _ _ _)
+  | cons x xs ih => intro t h; rw [List.foldl_cons]; exact ih _ (ScoreTWF_addScore h _ _ _)
 
-theorem TWF_rawScores (votes : SProfile) : TWF (rawScores votes) := by
+theorem ScoreTWF_rawScores (votes : SProfile) : ScoreTWF (rawScores votes) := by
   rw [rawScores_eq_fold]
-  exact TWF_fold _ _ ⟨List.nodup_nil, fun p hp => by cases hp⟩
+  exact ScoreTWF_fold _ _ ⟨List.nodup_nil, fun p hp => by cases hp⟩
 
 /-- as a map, `scores` does not depend on the ballot order -/
-theorem sem_rawScores_perm {p₁ p₂ : SProfile} (hf : (flat p₁).Perm (flat p₂)) : sem (rawScores p₁) = sem (rawScores p₂) := by
-  rw [rawScores_eq_fold, rawScores_eq_fold, sem_fold, sem_fold]
-  exact hf.foldl_eq' (fun x _ y _ z => upd_comm z x y) _
+theorem scoreSem_rawScores_perm {p₁ p₂ : SProfile} (hf : (scoreFlat p₁).Perm (scoreFlat p₂)) : scoreSem (rawScores p₁) = scoreSem (rawScores p₂) := by
+  rw [rawScores_eq_fold, rawScores_eq_fold, scoreSem_fold, scoreSem_fold]
+  exact hf.foldl_eq' (fun x _ y _ z => semUpd_comm z x y) _
 
 /-- two profiles that hold the same ballots with the same counts: the same `(candidate, grade, count)` increments up to
     order (this forgets the order of the ballots AND the order in which a ballot lists its candidates) and the same
     number of voters -/
-def SameBallots (p₁ p₂ : SProfile) : Prop := (flat p₁).Perm (flat p₂) ∧ totalVotes p₁ = totalVotes p₂
+def SameBallots (p₁ p₂ : SProfile) : Prop := (scoreFlat p₁).Perm (scoreFlat p₂) ∧ totalVotes p₁ = totalVotes p₂
 
 instance (p₁ p₂ : SProfile) : Decidable (SameBallots p₁ p₂) := by unfold SameBallots; infer_instance
 
@@ -598,7 +598,7 @@ theorem sameBallots_of_forall₂ {p₁ p₂ : SProfile}
   | cons hab _ ih =>
     rename_i a b l₁ l₂ _
     refine ⟨?_, ?_⟩
-    · unfold flat
+    · unfold scoreFlat
       rw [List.flatMap_cons, List.flatMap_cons, hab.2]
       exact (hab.1.map _).append ih.1
     · unfold totalVotes
@@ -616,37 +616,37 @@ def EntryEquiv (x y : Cand × CScores) : Prop := x.1 = y.1 ∧ CEquiv x.2 y.2
 /-- the same nested dict up to the insertion order of the candidates and of the grades of each candidate -/
 def TableEquiv (t₁ t₂ : ScoreTable) : Prop := ∃ t', t₁.Perm t' ∧ List.Forall₂ EntryEquiv t' t₂
 
-theorem tableEquiv_of_sem {t₁ t₂ : ScoreTable} (h₁ : TWF t₁) (h₂ : TWF t₂) (h : sem t₁ = sem t₂) : TableEquiv t₁ t₂ := by
+theorem tableEquiv_of_scoreSem {t₁ t₂ : ScoreTable} (h₁ : ScoreTWF t₁) (h₂ : ScoreTWF t₂) (h : scoreSem t₁ = scoreSem t₂) : TableEquiv t₁ t₂ := by
   -- every entry of `t₂` has its counterpart in `t₁`
-  have key : ∀ q ∈ t₂, ∃ cs, dget t₁ q.1 = some cs ∧ (q.1, cs) ∈ t₁ ∧ CEquiv cs q.2 := by
+  have key : ∀ q ∈ t₂, ∃ cs, score_dget t₁ q.1 = some cs ∧ (q.1, cs) ∈ t₁ ∧ CEquiv cs q.2 := by
     intro q hq
-    have e2 : dget t₂ q.1 = some q.2 := (dget_eq_some_iff h₂.1).mpr hq
+    have e2 : score_dget t₂ q.1 = some q.2 := (score_dget_eq_some_iff h₂.1).mpr hq
     have := congrFun h q.1
-    unfold sem at this
+    unfold scoreSem at this
     rw [e2] at this
-    cases e1 : dget t₁ q.1 with
+    cases e1 : score_dget t₁ q.1 with
     | none => rw [e1] at this; cases this
     | some cs =>
       rw [e1] at this
       simp only [Option.map_some, Option.some.injEq] at this
-      have hm : (q.1, cs) ∈ t₁ := (dget_eq_some_iff h₁.1).mp e1
-      exact ⟨cs, rfl, hm, perm_of_dget_eq (h₁.2 _ hm) (h₂.2 _ hq) (fun k => congrFun this k), h₁.2 _ hm⟩
-  refine ⟨t₂.map (fun q => (q.1, (dget t₁ q.1).getD [])), ?_, ?_⟩
-  · have hk : (t₂.map (fun q => (q.1, (dget t₁ q.1).getD []))).map (·.1) = t₂.map (·.1) := by
+      have hm : (q.1, cs) ∈ t₁ := (score_dget_eq_some_iff h₁.1).mp e1
+      exact ⟨cs, rfl, hm, perm_of_score_dget_eq (h₁.2 _ hm) (h₂.2 _ hq) (fun k => congrFun this k), h₁.2 _ hm⟩
+  refine ⟨t₂.map (fun q => (q.1, (score_dget t₁ q.1).getD [])), ?_, ?_⟩
+  · have hk : (t₂.map (fun q => (q.1, (score_dget t₁ q.1).getD []))).map (·.1) = t₂.map (·.1) := by
       rw [List.map_map]; rfl
-    apply (List.perm_ext_iff_of_nodup (nodup_of_nodup_keys h₁.1) (nodup_of_nodup_keys (by rw [hk]; exact h₂.1))).mpr
+    apply (List.perm_ext_iff_of_nodup (score_nodup_of_nodup_keys h₁.1) (score_nodup_of_nodup_keys (by rw [hk]; exact h₂.1))).mpr
     rintro ⟨c, cs⟩
     rw [List.mem_map]
     constructor
     · intro hm
-      have e1 : dget t₁ c = some cs := (dget_eq_some_iff h₁.1).mpr hm
+      have e1 : score_dget t₁ c = some cs := (score_dget_eq_some_iff h₁.1).mpr hm
       have := congrFun h c
-      unfold sem at this
+      unfold scoreSem at this
       rw [e1] at this
-      cases e2 : dget t₂ c with
+      cases e2 : score_dget t₂ c with
       | none => rw [e2] at this; cases this
       | some x =>
-        refine ⟨(c, x), (dget_eq_some_iff h₂.1).mp e2, ?_⟩
+        refine ⟨(c, x), (score_dget_eq_some_iff h₂.1).mp e2, ?_⟩
         simp only [e1, Option.getD_some]
     · rintro ⟨q, hq, e⟩
       obtain ⟨cs', e1, hm, _⟩ := key q hq
@@ -661,10 +661,10 @@ theorem tableEquiv_of_sem {t₁ t₂ : ScoreTable} (h₁ : TWF t₁) (h₂ : TWF
 
 /-- **`scores` does not depend on the ballot order** but for the insertion order of its two levels -/
 theorem rawScores_perm {p₁ p₂ : SProfile} (h : SameBallots p₁ p₂) : TableEquiv (rawScores p₁) (rawScores p₂) :=
-  tableEquiv_of_sem (TWF_rawScores p₁) (TWF_rawScores p₂) (sem_rawScores_perm h.1)
+  tableEquiv_of_scoreSem (ScoreTWF_rawScores p₁) (ScoreTWF_rawScores p₂) (scoreSem_rawScores_perm h.1)
 
 /-- composing the two halves of a table equivalence under `Except` -/
-theorem exceptEquiv_comp {α : Type} {R : α → α → Prop} {x y z : Except Err (List α)}
+theorem score_exceptEquiv_comp {α : Type} {R : α → α → Prop} {x y z : Except Err (List α)}
     (h₁ : ExceptEquiv List.Perm x y) (h₂ : ExceptEquiv (List.Forall₂ R) y z) :
     ExceptEquiv (fun a c => ∃ b, a.Perm b ∧ List.Forall₂ R b c) x z := by
   cases x with
@@ -719,9 +719,9 @@ theorem correctedScores_same (cfg : Cfg) {p₁ p₂ : SProfile} (h : SameBallots
   obtain ⟨t', hp, hf⟩ := rawScores_perm h
   have e : ∀ votes, correctedScores cfg votes = (rawScores votes).mapM (correctEntry cfg (totalVotes votes)) := fun _ => rfl
   rw [e, e, h.2]
-  exact exceptEquiv_comp
-    (mapM_perm _ .valueError hp (fun x _ e he => correctEntry_error he))
-    (mapM_forall₂ _ _ (correctEntry_equiv cfg _) hf)
+  exact score_exceptEquiv_comp
+    (score_mapM_perm _ .valueError hp (fun x _ e he => correctEntry_error he))
+    (score_mapM_forall₂ _ _ (correctEntry_equiv cfg _) hf)
 
 /-! ### `aggregate` -/
 
@@ -779,9 +779,9 @@ theorem aggregate_equiv (fn : Agg) {t₁ t₂ : ScoreTable} (h : TableEquiv t₁
   obtain ⟨t', hp, hf⟩ := h
   have e : ∀ t, aggregate fn t = t.mapM (aggEntry fn) := fun _ => rfl
   rw [e, e]
-  have h1 := mapM_perm (aggEntry fn) (aggErr fn) hp (fun x _ e he => aggEntry_error he)
-  have h2 := mapM_forall₂ (aggEntry fn) (aggEntry fn) (aggEntry_equiv fn) hf
-  have h3 := exceptEquiv_comp h1 h2
+  have h1 := score_mapM_perm (aggEntry fn) (aggErr fn) hp (fun x _ e he => aggEntry_error he)
+  have h2 := score_mapM_forall₂ (aggEntry fn) (aggEntry fn) (aggEntry_equiv fn) hf
+  have h3 := score_exceptEquiv_comp h1 h2
   cases hx : t₁.mapM (aggEntry fn) with
   | error e1 =>
     cases hz : t₂.mapM (aggEntry fn) with
